@@ -194,8 +194,14 @@ def cone_runs(ctx, cvxopt, kinds, n_inst, max_variants, prop, judge_exceptions=F
             bad = check_wrapper_pieces(r, pr.dims, tag)
             if bad: ctx.violation('%s:wrapper-blocks:%s' % (prop, tag.split(' ')[0]), '%s: %s are not the blocks of s/z' % (tag, bad), desc)
             if st == 'optimal':
-                if 'glpk' in tag:      # glpk's slack h - G*x is computed in floating point: -1e-16 on active rows is rounding, not a violation
-                    r = dict(r); r['s'] = [max(a, 0.0) if a > -1e-9 * max(1.0, max(abs(t) for t in r['s'])) else a for a in r['s']]
+                if 'glpk' in tag:
+                    # glpk's slack h - G*x and its simplex multipliers are computed in floating point: -1e-16 on an active row or a
+                    # nonbasic multiplier is rounding of the external solver (it works to its own 1e-9 tolerances), not a violation of the
+                    # approximate conditions; anything below -1e-9 (relative) is kept and judged
+                    r = dict(r)
+                    for key in ('s', 'z'):
+                        sc = 1e-9 * max([1.0] + [abs(t) for t in r[key]])
+                        r[key] = [max(a, 0.0) if a > -sc else a for a in r[key]]
                 lines.append(prob_line(pr, Gj, hj)); meta.append(None)
                 lines.append('optimal x=%s s=%s y=%s z=%s tol=%s,%s,%s' % (vec(mlist(r['x'])), vec(assemble(r, 's')), vec(mlist(r['y'])), vec(assemble(r, 'z')),
                                                                            fr(tol_eff(tol[0])), fr(tol_eff(tol[1])), fr(tol_eff(tol[2]))))
